@@ -366,3 +366,9 @@ S(id="OS.string", props=["C19", "C12", "C13"], harness="h_os_add_string", mode="
   replace=["_OS_expand_memory/os_expand_use_c", "strlen/strlen_gh_c"], functions=["_OS_add_string_function"],
   what="the string with its NUL is appended after dropping the previous terminator; appended bytes equal the source (ghost index), earlier bytes unchanged, writes stay inside the segment",
   assumes=["A2: strlen returns the index of the terminating NUL (contract tied to a ghost length)"], **OS)
+S(id="T.copy.term", props=["C13", "C12"], spec="symtab.spec.c", harness="h_add_term", mode="L", enforce=["symb_add_term/add_term_c"],
+  replace=["find_hash_table_entry/find_slot_c", "_OS_add_string_function/os_add_string_use_c", "_OS_expand_memory/os_expand_use_c", "_VLO_expand_memory/vlo_expand_use_c"],
+  functions=["symb_add_term"], params={"quick": {"CAP": 32}, "thorough": {"CAP": 256}},
+  what="the terminal record gets the code and the next numbers; its name is a COPY inside the grammar's object stack (different object, equal bytes: ghost index); "
+       "the record is appended to both reference arrays; all writes stay inside the containers",
+  assumes=["A5: _VLO_expand_memory contract assumed", "the string and segment contracts are those proved by OS.string / OS.expand, restated for an empty top object"])
